@@ -2,6 +2,7 @@
 package main
 
 import (
+	"verifsim/dkgsim"
 	"verifsim/engine"
 	"verifsim/prgcrash"
 )
@@ -9,5 +10,6 @@ import (
 func main() {
 	engine.Main(map[string]engine.Engine{
 		"prgcrash": prgcrash.Engine{},
+		"dkgsim":   dkgsim.Engine{},
 	})
 }
